@@ -145,8 +145,40 @@ static void run_mutate(uint64_t idx, pv_rng* rng) {
     if (idx < 6) pv_sample("mutate", "[%s] mask %u %s", cls, g_mask, pv_hex(b, 32));
 }
 
+/* ---------------------------------------------------------------- the same clauses while other threads load and store their own seeds */
+static bool conc_iter(pv_rng* r, int iter, void* user, char* err, size_t errsz) {
+    (void)iter; (void)user;
+    uint8_t b[32], o[32]; pv_mseed m; pv_gen_mseed(r, 7, true, &m);
+    pv_m_image(&m, b);
+    uint32_t k = pv_randn(r, 4);
+    if (k == 1) b[pv_randn(r, 32)] ^= (uint8_t)(1u << pv_randn(r, 8));
+    else if (k == 2) { b[8 + pv_randn(r, 21)] ^= (uint8_t)(1u << pv_randn(r, 8)); }
+    pv_mseed want; int ws = pv_m_load(b, 7, &want);
+    uint8_t* in = malloc(32); memcpy(in, b, 32);
+    polyseed_data* s = NULL; int st = pv_api_load(in, &s);
+    bool ok = true;
+    if (st != ws) { ok = false; snprintf(err, errsz, "load(%s) -> %s, specification %s", pv_hex(b, 32), pv_status_name(st), pv_status_name(ws)); }
+    else if (st == POLYSEED_OK) {
+        pv_api_store(s, o);
+        if (memcmp(o, b, 32)) { ok = false; snprintf(err, errsz, "store(load(b)) = %s for b = %s", pv_hex(o, 32), pv_hex(b, 32)); }
+        else { const char* mm = pv_seed_mismatch(s, &want, pv_randn(r, 2048)); if (mm) { ok = false; snprintf(err, errsz, "%s", mm); } }
+    }
+    if (memcmp(in, b, 32)) { ok = false; snprintf(err, errsz, "load modified its input"); }
+    if (st == POLYSEED_OK) pv_api_free(s);
+    free(in);
+    return ok;
+}
+static uint64_t n_conc(void) { return pv_scaled(3, 100); }
+static void run_conc(uint64_t idx, pv_rng* rng) {
+    (void)idx; set_mask(7);
+    enum { NT = 8, IT = 4000 }; static pv_conc_result res[NT];
+    uint64_t seed = pv_rand64(rng);
+    pv_concurrent(NT, IT, seed, 35, conc_iter, NULL, res);
+    if (pv_concurrent_verdict(res, NT, IT, "C06/differs-under-concurrency", "concurrent.loads_equal_specification")) PV_DISTINCT("nontrivial", seed);
+}
+
 static void fini(void) { pv_set_flag("exhaustive.field_sweeps(bytes 8-9, 30-31, header, 28, 29 around sampled valid images)", true); }
 int main(int argc, char** argv) {
-    static const pv_section secs[] = { { "round", n_round, run_round }, { "fields", n_fields, run_fields }, { "mutate", n_mutate, run_mutate } };
-    return pv_main(argc, argv, "C06", secs, 3, init, fini);
+    static const pv_section secs[] = { { "round", n_round, run_round }, { "fields", n_fields, run_fields }, { "mutate", n_mutate, run_mutate }, { "concurrent", n_conc, run_conc } };
+    return pv_main(argc, argv, "C06", secs, 4, init, fini);
 }
